@@ -143,6 +143,28 @@ def check(ctx) -> None:
     r210(ctx)
 
 
+def nothing_removed_edges(cfg, n):
+    """`x = D.pop(k, None)`: on the branch where `x is None` nothing was
+    removed, so there is nothing to log there."""
+    s = n.stmt
+    if not (isinstance(s, ast.Assign) and len(s.targets) == 1
+            and isinstance(s.targets[0], ast.Name)
+            and isinstance(s.value, ast.Call) and call_name(s.value) == 'pop'
+            and len(s.value.args) == 2
+            and isinstance(s.value.args[1], ast.Constant)
+            and s.value.args[1].value is None):
+        return []
+    x = s.targets[0].id
+    out = []
+    for t in cfg.nodes:
+        if t.kind == 'test':
+            atoms = guard_atoms(t.stmt.test)
+            # guard_atoms writes `x is None` as (x, False)
+            if len(atoms) == 1 and atoms[0][0] == x:
+                out.append((t, 'f' if atoms[0][1] else 't'))
+    return out
+
+
 def r21(ctx, cls) -> None:
     R = ctx.rule('R2.1', 'mutate => log => notify', 10)
     for fs in cls.methods.values():
@@ -154,7 +176,8 @@ def r21(ctx, cls) -> None:
             for n, recv, kind, what in mutation_sites(cfg):
                 for eff in (f'_mod_sequences.{kind}', '_updated.set'):
                     tg = effect_nodes(cfg, cls, recv, eff)
-                    sk = skip if what.endswith('permanent_flags') else ()
+                    sk = list(skip if what.endswith('permanent_flags')
+                              else ()) + nothing_removed_edges(cfg, n)
                     ok = bool(tg) and cfg.always_followed_by(
                         n, tg, labels=NORMAL, skip_edges=sk)
                     R.check(ok, f, n.stmt,
@@ -317,7 +340,8 @@ def r23(ctx, cls) -> None:
     # the consuming read: the old position is copied into a local (it is the
     # argument of find_updated); a freshness test before a wait is not it
     reads = cfg.find(lambda n: n.kind == 'stmt' and isinstance(
-        n.stmt, (ast.Assign, ast.AnnAssign)) and any(
+        n.stmt, (ast.Assign, ast.AnnAssign)) and \
+        n.stmt.value is not None and any(
         isinstance(x, ast.Attribute) and x.attr in ('mod_sequence',
                                                     '_mod_sequence')
         and isinstance(x.ctx, ast.Load)
